@@ -1,0 +1,23 @@
+//go:build verif
+
+// Contracts for the govc verifier (/verif). This file contains comments only; it is compiled
+// only under the build tag "verif" and contributes no declarations.
+package vrf
+
+// ---------------------------------------------------------------------------------------------
+// VRF wrappers (C16). The consensus layer reaches the VRF only through these functions, with proofs
+// that went through the header's big-integer prove value (leading zero bytes dropped). The wrappers
+// must therefore accept exactly what ed25519.ECVRFVerify accepts, for every proof length: the
+// left-padding to 80 bytes happens inside ECVRFVerify.
+
+//@ func VRFVerify
+//@   property C16
+//@   ensures [delegates] result0 == @vrf_accept(old(bytes(pk)), old(bytes(pi)), old(bytes(m)))
+//@   ensures [err]       (result1 == nil) == @vrf_decodable(old(bytes(pi)))
+
+// The lottery output is the first 32 bytes (gamma) of the 80-byte proof.
+//@ func VRFProof2Hash
+//@   property C16
+//@   requires len(pi) >= 32
+//@   ensures [gamma] len(result) == 32 && ref(result) == ref(pi) && off(result) == off(pi)
+//@   modifies nothing
